@@ -820,3 +820,22 @@ def fam_race_core(tier="quick"):
     add("Us", ["A0"], [["usl 0"], ["usl 0"]])
     add("Us", ["A0"], [["wm 0 3"], ["wm 0 4"]])
     return L
+
+
+def fam_tls_core(tier="quick"):
+    """F-tls (C17): 1-2 thread-locals and lazy statics touched from 1-4 threads in all orders."""
+    big = tier != "quick"
+    L = []
+    a = ["tw 0", "tw 1", "lz 0", "lz 1", "tw 0 ; tw 0", "lz 0 ; lz 0"]
+    L += exhaustive("tlA", ["A0"], [a, a], 2, stride=1 if big else 3)
+    b = ["st 0 1 sc ; lz 0", "ld 0 sc ; lz 0", "lz 0 ; st 0 2 sc", "tw 0 ; ld 0 sc"]
+    L += exhaustive("tlB", ["A0"], [b, b], 1)
+    L += exhaustive("tlC", ["A0"], [["lz 0"], ["lz 0 ; tw 0"], ["tw 0 ; lz 1"], ["lz 1 ; lz 0"]], 1)
+    L += exhaustive("tlD", ["A0"], [b[:2], b[:2], b[2:]], 1)
+    # single thread
+    L.append(prog_line("tlS0", ["A0"], [["tw 0", "tw 1", "tw 0", "lz 0", "lz 0", "lz 1"]]))
+    # a lazy static first used by a child and read by main after the join
+    L.append(prog_line("tlS1", ["A0"], [["sp 1", "jn 1", "lz 0"], ["lz 0"]]))
+    # not joined: the child may still run while main finishes (lazy statics are dropped by main)
+    L += exhaustive("tlE", ["A0"], [["lz 0", "tw 0"], ["st 0 1 sc ; tw 0", "st 0 1 sc ; st 0 2 sc ; tw 1"]], 1, join=False)
+    return L
